@@ -274,7 +274,34 @@ pub const ODD_CHARS: &[char] = &[
     '\0', '\u{1}', '\u{7f}', '\u{85}', '\u{a0}', '\u{200b}', '\u{2028}', '\u{feff}', '\u{301}', '\u{308}', '\u{327}', '\u{303}',
     '\u{306}', 'ǅ', 'İ', 'ı', 'ﬁ', '²', '½', 'Ⅷ', 'ⅷ', 'ℂ', 'ϒ', '𝐀', '😀', '𐐀', '𐐨', 'ß', 'ẞ', 'œ', 'Æ', 'ø', 'ё', 'Ё', 'й', 'ς', 'Σ',
     '\'', '"', '/', '+', '_', '&', '(', ')', '—', '…', '‼', '-', '.', ',', '!', ' ', '\t', '\n', '漢', 'ا', '़', 'ก', '①', '٣',
+    // every character of the splitter's punctuation list
+    ':', ';', '?', '\u{2011}', '\u{2012}', '\u{2013}', '\u{2047}', '\u{2048}', '\u{2049}',
+    // invisible format characters, more spaces
+    '\u{ad}', '\u{200c}', '\u{200d}', '\u{2060}', '\u{2009}', '\u{3000}', '\u{202f}',
 ];
+
+/// letters of other scripts (1-, 2-, 3- and 4-byte encodings): words made of them
+pub const SCRIPTS: &[&str] = &[
+    "αβγδεζηθικλμνξοπρστυφχψω",
+    "אבגדהוזחטיכלמנסעפצקרשת",
+    "ابتثجحخدذرزسشصضطظعغفقكلمنهوي",
+    "कखगघचछजझटठडढणतथदधनपफबभमयरलवशषसह",
+    "กขคงจฉชซญดตถทธนบปผฝพฟภมยรลวศษสหอ",
+    "あいうえおかきくけこさしすせそたちつてとなにぬねのはひふへほ",
+    "アイウエオカキクケコサシスセソタチツテトナニヌネノハヒフヘホ",
+    "一二三四五六七八九十百千万円日月火水木金土年時分",
+    "가나다라마바사아자차카타파하",
+    "აბგდევზთიკლმნოპჟრსტუფქღყშჩცძწჭხჯჰ",
+    "𐐨𐐩𐐪𐐫𐐬𐐭𐐮𐐯𐐰𐐱𐐲𐐳𐐴𐐵𐐶𐐷",
+    "𝐚𝐛𝐜𝐝𝐞𝐟𝐠𝐡𝐢𝐣𝐤𝐥𝐦",
+];
+
+/// a word of `n` letters of one non-Latin script
+pub fn gen_script_word(src: &mut Source, n: usize) -> String {
+    let alpha: Vec<char> = src.pick(SCRIPTS).chars().collect();
+    let k = src.range(2, alpha.len());
+    (0..n).map(|_| alpha[src.below(k)]).collect()
+}
 
 pub fn gen_any_char(src: &mut Source) -> char {
     loop {
